@@ -300,3 +300,4 @@ def run(ctx):
   r7_narrow_and_quantize(ctx)
   r8_bias(ctx)
   r9_rank_fix(ctx)
+  shared.rule_rebuild_completeness(ctx, 'C17.R10')
